@@ -868,6 +868,8 @@ def Array_iadd_prefactor_other(self, prefactor, other):
     Moreover, if `self` and `other` have the same labels in different order,
     other gets **transposed** before the action.
     """
+    if not isinstance(other, _np_conserved.Array) or not np.isscalar(prefactor):
+        raise ValueError("wrong argument types: {0!r}, {1!r}".format(type(prefactor), type(other)))
     other = other._transpose_same_labels(self._labels)
     if not optimize(OptimizationFlag.skip_arg_checks):
         if self.rank != other.rank:
